@@ -50,6 +50,33 @@ def sourceVersion : Option Version :=
   | false, false, false => some .orig
   | _, _, _ => none
 
+/-! ### which methods are modelled
+`io.Copy` / `io.CopyBuffer` take a `WriteTo` (source) or `ReadFrom` (destination) fast path when
+the method exists, so the *method set* of each reader type is part of its observable behaviour.
+These are the method sets this file models (sorted, as `factgen_c16` emits them); property
+theorem `method_sets_as_modelled` requires the regenerated facts to equal them, so a new method
+(e.g. a `WriteTo` on the limit reader) breaks the obligation instead of going unmodelled. -/
+
+/-- `limitReadCloser`: `Limit.read`, `Limit.close`. No `WriteTo`: `io.Copy` goes through `Read`. -/
+def Limit.modelledMethods : List String := ["Close", "Read"]
+/-- `MultiReaderCloser`: `Multi.read`, `Multi.close`, `Multi.writeTo` (= `WriteTo` + `writeToWithBuffer`). -/
+def Multi.modelledMethods : List String := ["Close", "Read", "WriteTo", "writeToWithBuffer"]
+/-- `TeeReadCloser`: `Tee.read`, `Tee.close`, `Tee.stop`. -/
+def Tee.modelledMethods : List String := ["Close", "Read", "Stop"]
+
+/-- The regenerated method sets, embedded fields and constructor return types are exactly the
+modelled ones. -/
+def methodSetsAsModelled : Bool :=
+  Generated.C16.limitReadCloserMethods == Limit.modelledMethods &&
+  Generated.C16.multiReaderCloserMethods == Multi.modelledMethods &&
+  Generated.C16.teeReadCloserMethods == Tee.modelledMethods &&
+  Generated.C16.limitReadCloserEmbedded == [] &&
+  Generated.C16.multiReaderCloserEmbedded == [] &&
+  Generated.C16.teeReadCloserEmbedded == [] &&
+  Generated.C16.limitReadCloserReturns == ["limitReadCloser"] &&
+  Generated.C16.newMultiReaderCloserReturns == ["MultiReaderCloser"] &&
+  Generated.C16.newTeeReadCloserReturns == ["TeeReadCloser"]
+
 /-! ### scripted source -/
 
 structure Src where
